@@ -147,7 +147,7 @@ fn check_c12(ctx: &mut Ctx, case: &ProjectCase) {
 
 fn run_c12(ctx: &mut Ctx) {
     let mut r = StdRng::seed_from_u64(ctx.shard_seed());
-    let n = ctx.tier.pick(2000, 20_000);
+    let n = ctx.tier.pick(2000, 60_000);
     for i in 0..n {
         if !ctx.time_left() || ctx.violations.len() > 20 {
             break;
@@ -616,7 +616,7 @@ fn check_mixed(ctx: &mut Ctx, seed: u64) {
 
 fn run_c16(ctx: &mut Ctx) {
     let mut r = StdRng::seed_from_u64(ctx.shard_seed());
-    let n = ctx.tier.pick(3000, 20_000);
+    let n = ctx.tier.pick(3000, 100_000);
     for i in 0..n {
         if !ctx.time_left() || ctx.violations.len() > 20 {
             break;
